@@ -22,12 +22,28 @@ ROOT = os.path.dirname(os.path.abspath(__file__))
 sys.path.insert(0, ROOT)
 from vlib import engine, gens, props, ssacheck, extra   # noqa: E402
 
-REPO = "/repo"
+REPO = os.environ.get("VERIF_REPO", "/repo")   # VERIF_REPO: a snapshot of /repo (background soak runs only; registered commands use /repo)
 LEAN = os.path.join(ROOT, "lean")
 BUILD = os.path.join(ROOT, "build")
 RUN = os.path.join(ROOT, "run")
 EVID = os.path.join(ROOT, "evidence")
 GOENV = dict(os.environ, GOFLAGS="-mod=mod", GOPROXY="off", GOSUMDB="off", GOTOOLCHAIN="local")
+HARNESS_ENV = GOENV
+
+
+def harness_env():
+    """environment of `go build` in /verif/harness: with VERIF_REPO set, an alternative go.mod redirects the `replace`"""
+    global HARNESS_ENV
+    if REPO != "/repo":
+        os.makedirs(BUILD, exist_ok=True)
+        alt = os.path.join(BUILD, "go.alt.mod")
+        open(alt, "w").write(open(os.path.join(ROOT, "harness", "go.mod")).read().replace("=> /repo", "=> " + REPO))
+        if os.path.exists(os.path.join(REPO, "go.sum")):
+            open(os.path.join(BUILD, "go.alt.sum"), "wb").write(open(os.path.join(REPO, "go.sum"), "rb").read())
+        HARNESS_ENV = dict(GOENV, GOFLAGS="-mod=mod -modfile=" + alt)
+    return HARNESS_ENV
+
+
 ALLOWED_AXIOMS = {"propext", "Classical.choice", "Quot.sound"}
 FORBIDDEN = re.compile(r"\b(sorry|admit|native_decide|bv_decide|implemented_by|unsafe)\b|^axiom\s|maxHeartbeats\s+0\b", re.M)
 
@@ -130,6 +146,7 @@ def prepare(log):
                            os.path.join(REPO, "field", "verif_export.go"): os.path.join(ROOT, "harness", "inject", "field_export.go")}},
               open(ov, "w"))
     hdir = os.path.join(ROOT, "harness")
+    henv = harness_env()
     if os.path.exists(os.path.join(REPO, "go.sum")):
         open(os.path.join(hdir, "go.sum"), "wb").write(open(os.path.join(REPO, "go.sum"), "rb").read())
     for name, tags, arch in (("edgo", "verif", None), ("edgo_purego", "verif,purego", None), ("edgo_386", "verif", "386")):
@@ -137,7 +154,7 @@ def prepare(log):
         if os.path.exists(outp):
             os.remove(outp)
         rc, out, dt = sh(["go", "build", "-tags", tags, "-overlay", ov, "-o", outp, "./cmd/edgo"], cwd=hdir,
-                         env=dict(GOENV, GOARCH=arch) if arch else GOENV)
+                         env=dict(henv, GOARCH=arch) if arch else henv)
         st.setdefault("harness", {})[name] = {"rc": rc, "out": out[-4000:]}
         log(f"build {name} rc={rc} {dt:.1f}s")
     # model driver
@@ -498,7 +515,7 @@ def main():
     # property-specific structural / auxiliary parts
     for part in cfg.get("parts", []):
         ok, info = getattr(extra if hasattr(extra, part) else ssacheck, part)(pid, tier, seed, st, log,
-                                                                                   dict(ROOT=ROOT, LEAN=LEAN, BUILD=BUILD, RUN=RUN, REPO=REPO, GOENV=GOENV, sh=sh))
+                                                                                   dict(ROOT=ROOT, LEAN=LEAN, BUILD=BUILD, RUN=RUN, REPO=REPO, GOENV=harness_env(), sh=sh))
         extra_cov[part] = info.get("coverage", {})
         for kl in info.get("known", []):
             known_lines.append(kl)
